@@ -56,7 +56,7 @@ def plan(tier, seed):
     shards = [("pairs", i) for i in range(24)] + [("inclusion",)]
     shards += [("subsets", 0), ("subsets", 1), ("subsets", 2), ("subsets", 3)]
     shards += [("values", f, L) for f in STRING_FIELDS]
-    shards += [("adversarial",)]
+    shards += [("adversarial",), ("samevalue", 0), ("samevalue", 1), ("samevalue", 2)]
     return dict(shards=shards, bounds=dict(alphabet_size=len(A.SIGMA), value_length=L, subset_size=2), budget_s=900)
 
 
@@ -103,6 +103,8 @@ def run_shard(shard, ctx):
         _subsets(ctx, shard[1])
     elif kind == "values":
         _values(ctx, shard[1], shard[2])
+    elif kind == "samevalue":
+        _samevalue(ctx, shard[1])
     else:
         _adversarial(ctx)
 
@@ -185,6 +187,32 @@ def _values(ctx, f, L):
                 return
             v = "".join(tup)
             check_song(ctx, ["Resolution = 192", '%s = "%s"' % (f, v)], "value %r of %s" % (v, f))
+
+
+def _samevalue(ctx, part):
+    """Two fields carrying the SAME inner text: no field's line may influence another field, so a
+    digits-only string stays a string next to an equal number, 'bass' stays a string next to Player2."""
+    def line(f, v):
+        return '%s = "%s"' % (f, v) if f in refmodel.STRING_FIELDS else "%s = %s" % (f, v)
+
+    pairs = [(f, g) for f in ALL_FIELDS for g in ALL_FIELDS if f != g]
+    for k, (f, g) in enumerate(pairs):
+        if k % 3 != part:
+            continue
+        ctx.node()
+        for v in ("7", "192", "0", "bass", "rhythm"):
+            ok = lambda fld: (fld in refmodel.STRING_FIELDS) or (fld == "Player2" and v in ("bass", "rhythm")) or (fld in refmodel.INT_FIELDS and v.isdigit() and not (fld == "Resolution" and v == "0"))  # noqa: E731
+            if not (ok(f) and ok(g)):
+                continue
+            song = [line(f, v), line(g, v)]
+            if "Resolution" not in (f, g):
+                song = ["Resolution = 480"] + song
+            check_song(ctx, song, "fields %s and %s carry the same text %r" % (f, g, v))
+            # and the same collision across two charts parsed one after the other (process-wide state)
+            a = [line(f, v)] + ([] if f == "Resolution" else ["Resolution = 480"])
+            b = [line(g, v)] + ([] if g == "Resolution" else ["Resolution = 480"])
+            check_song(ctx, a, "field %s = %r (first of two charts)" % (f, v))
+            check_song(ctx, b, "field %s = %r right after a chart with %s = %r" % (g, v, f, v))
 
 
 def _adversarial(ctx):
